@@ -631,7 +631,10 @@ def newBlobReader (d : Desc) (verify : Bool) (body : Bytes) : CRes :=
 /-- What the caller reads from a `reader` result (`blobReader.Read`, client.go:213-239): the model of
 C01b, the body arriving in the given chunks. -/
 def readAll (H : Bytes → Bytes) (d : Desc) (verify : Bool) (chunks : List Bytes) : BlobReader.Res :=
-  BlobReader.readAll H verify d.size.toNat d.digest [] chunks
+  -- a negative size (a `Content-Range` total the server made up) is exceeded by whatever arrives, even by nothing:
+  -- since fix F36 the size check no longer waits for a read without error
+  if d.size < 0 then .tooLong (chunks.headD [])
+  else BlobReader.readAll H verify d.size.toNat d.digest [] chunks
 
 /-- ociclient/reader.go:135-186 `read`: `r1` answers the GET, `r2` the HEAD that is sent when a tag GET
 carries no digest and the manifest is too large to hash in memory. `H` is `digest.FromBytes`. -/
